@@ -15,7 +15,8 @@ head = (
     '## 3. Cost summary\n\n'
     'Sizes and wall times are what the checks themselves wrote into `evidence/<ID>.json` (quick tier) and\n'
     '`evidence/thorough/<ID>.json` (thorough tier) in the final runs on the 16-core sandbox; the thorough runs shared the\n'
-    'machine with other jobs (mutant sweep, quick runs with other seeds), the quick runs did not. Regenerate with\n'
+    'machine with other jobs (mutant sweep, quick runs with other seeds; C07 and the seven cheapest were measured again on\n'
+    'the idle machine: C07 took 4 517 s under load and 1 869 s alone), the quick runs did not. Regenerate with\n'
     '`tools/update_cost_section.py`.\n\n'
 )
 s = s[:a] + head + table + '\n' + s[b:]
